@@ -214,6 +214,51 @@ fn run_typed<L: Lit + 'static>(fmt: &str, mode: &str, src: SchedSource, chunk: u
     }
 }
 
+/// A user-defined literal type with an arbitrary `MAX_CODE` that enforces the trait's contract:
+/// `from_code` must never see a code above `MAX_CODE` (the built-in types all have an odd
+/// `MAX_CODE = 2^k - 1`; the trait allows any).
+#[derive(Clone, Copy, PartialEq, Eq, Hash, Debug)]
+pub struct Chk<const M: usize>(usize);
+
+impl<const M: usize> Lit for Chk<M> {
+    const MAX_CODE: usize = M;
+    fn from_code(code: usize) -> Self {
+        assert!(code <= M, "from_code({}) beyond MAX_CODE {}", code, M);
+        Chk(code)
+    }
+    fn code(self) -> usize {
+        self.0
+    }
+}
+
+/// The document parsed with the checked literal type whose (even) `MAX_CODE` is `m2`.
+pub fn run_parser_chk(fmt: &str, mode: &str, src: SchedSource, m2: usize) -> Option<RunObs> {
+    let r = catch(|| match m2 {
+        2 => run_typed::<Chk<2>>(fmt, mode, src.clone(), 16384),
+        4 => run_typed::<Chk<4>>(fmt, mode, src.clone(), 16384),
+        6 => run_typed::<Chk<6>>(fmt, mode, src.clone(), 16384),
+        8 => run_typed::<Chk<8>>(fmt, mode, src.clone(), 16384),
+        10 => run_typed::<Chk<10>>(fmt, mode, src.clone(), 16384),
+        12 => run_typed::<Chk<12>>(fmt, mode, src.clone(), 16384),
+        14 => run_typed::<Chk<14>>(fmt, mode, src.clone(), 16384),
+        16 => run_typed::<Chk<16>>(fmt, mode, src.clone(), 16384),
+        18 => run_typed::<Chk<18>>(fmt, mode, src.clone(), 16384),
+        20 => run_typed::<Chk<20>>(fmt, mode, src.clone(), 16384),
+        22 => run_typed::<Chk<22>>(fmt, mode, src.clone(), 16384),
+        24 => run_typed::<Chk<24>>(fmt, mode, src.clone(), 16384),
+        26 => run_typed::<Chk<26>>(fmt, mode, src.clone(), 16384),
+        28 => run_typed::<Chk<28>>(fmt, mode, src.clone(), 16384),
+        30 => run_typed::<Chk<30>>(fmt, mode, src.clone(), 16384),
+        32 => run_typed::<Chk<32>>(fmt, mode, src.clone(), 16384),
+        _ => RunObs { items: vec![], fin: "SKIP".into() },
+    });
+    match r {
+        Some(o) if o.fin == "SKIP" => None,
+        Some(o) => Some(o),
+        None => Some(RunObs { items: vec![], fin: "E:panic".into() }),
+    }
+}
+
 pub fn run_parser(fmt: &str, ty: &str, mode: &str, src: SchedSource, chunk: usize) -> RunObs {
     let r = catch(|| match ty {
         "u8" => run_typed::<u8>(fmt, mode, src.clone(), chunk),
@@ -824,6 +869,22 @@ pub fn run_case(line: &str) -> (String, Vec<String>) {
     // ---- C05: no panic, allocation bounded by the input size
     if base.fin == "E:panic" {
         fails.push("C05:parser panicked".into());
+    }
+    // ---- C05 / C06 with a user-defined literal type: the header's maximum variable index M
+    // decides which codes the parser will accept; with MAX_CODE = 2M (even) the largest code 2M+1
+    // must be refused by the header check, never handed to `from_code`
+    if delivered.len() <= 4096 {
+        let m: Option<usize> = delivered.split(|b| *b == b' ' || *b == b'\n').nth(1)
+            .and_then(|t| std::str::from_utf8(t).ok()).and_then(|t| t.parse().ok());
+        if let Some(m) = m.filter(|m| *m <= 64) {
+            for m2 in [2 * m, 2 * m + 2] {
+                if let Some(o) = run_parser_chk(&c.fmt, &c.mode, mk(vec![]), m2) {
+                    if o.fin == "E:panic" {
+                        fails.push(format!("C05:parser panicked with a literal type whose MAX_CODE is {} (from_code beyond MAX_CODE, or another panic)", m2));
+                    }
+                }
+            }
+        }
     }
     if !fault {
         match catch(|| by_type!(c.ty.as_str(), parse_probe_typed, &c.fmt, &delivered)) {
